@@ -180,7 +180,7 @@ def check_case(case, ctx=None, only_points=None):
             for s_, e_, r_ in recs:
                 if e_ - s_ < 16384: continue
                 note("big-record.records")
-                for off in (1, 100, 4095, 4096, 4097, 8191, 8192, 8193, 8300, 12000, 16385, (e_ - s_) // 2, e_ - s_ - 8193, e_ - s_ - 8192, e_ - s_ - 100, e_ - s_ - 2, e_ - s_ - 1):
+                for off in (1, 100, 4095, 4096, 4097, 8191, 8192, 8193, 8300, 12000, 16385, 32769, 65535, 65536, 65537, 70000, 131071, 131072, 131073, 131500, (e_ - s_) // 2, e_ - s_ - 8193, e_ - s_ - 8192, e_ - s_ - 100, e_ - s_ - 2, e_ - s_ - 1):
                     if 0 < off < e_ - s_: points.add((s_ + off, ("gz-body" if gz else "inside-record-deeper-than-a-buffer" if off > 8192 else "inside-record-middle")))
                 points.add((e_, "record-boundary"))
             points = sorted(points)
@@ -314,11 +314,11 @@ def big_log_case(rng):
     return {"spec": spec, "gz": rng.random() < .5, "seed": rng.randrange(1 << 30), "big": True}
 
 def big_record_case(rng, gz=False):
-    """a log holding records of several buffer sizes (one evaluation of 1500 interactions is ONE record of > 40 KB): crash points at
-    every depth class inside such a record (first bytes, around the 4 KB / 8 KB buffer sizes on either side, deep inside, last bytes)"""
-    spec = {"groups": [{"kind": "lambda", "n": 1500, "seed": 1, "tag": "g0", "filters": []}],
+    """a log holding records of several buffer sizes (one evaluation of 5200 interactions is ONE record of > 128 KB): crash points at
+    every depth class inside such a record (first bytes, around the 4 KB / 8 KB / 64 KB / 128 KB buffer and window sizes on either side, deep inside, last bytes)"""
+    spec = {"groups": [{"kind": "linear", "n": 5200, "seed": 1, "tag": "g0", "filters": [], "na": 2, "ncf": 1, "naf": 0}],   # (a LambdaSimulation of 5000+ interactions refuses to be pickled)
             "lrns": [{"kind": "stateful-a", "tag": f"L{i}", "seed": 1} for i in range(3)],
-            "vals": [{"kind": "rec", "tag": "V0", "seed": 1, "nrows": 1500}], "seed": 1, "triples": "cross"}
+            "vals": [{"kind": "rec", "tag": "V0", "seed": 1, "nrows": 5200}], "seed": 1, "triples": "cross"}
     return {"spec": spec, "gz": gz, "seed": rng.randrange(1 << 30), "bigrec": True}
 
 def run_shard(ctx):
